@@ -4,7 +4,8 @@
    that replays on /repo (known findings).  The index-aware queries are compared with the snapshot
    by the oracle (tested_only). *)
 From Coq Require Import String ZArith Bool Arith List.
-From SV Require Import Names NamesFacts ListFacts Rep Fresh Complex Atomic RepInv Homology Filtration FiltProofs.
+From SV Require Import Names NamesFacts ListFacts Rep Fresh Complex Atomic RepInv Homology Filtration FiltProofs Shapes SnapProofs.
+From SV Require Closed ClosedReach.
 Import ListNotations.
 
 Theorem C14_maxOrder_refuted : maxOrder (f_rep witness) <> maxOrder (snap_rep witness).
@@ -41,3 +42,19 @@ Print Assumptions C14_prev.
 Theorem C14_prev_at_start : forall f, index_in (f_index f) (f_indices f) 0 = Some 0 -> f_setPrev f = (f, Ok (f_index f)).
 Proof. exact prev_stays_at_the_start. Qed.
 Print Assumptions C14_prev_at_start.
+
+(* the snapshot taken at the current index (snap(): a copy of what is visible) answers membership,
+   order and faces as the filtration does at that index *)
+Theorem C14_snapshot_membership_and_faces :
+  forall hp f uid hp' c, pinv (f_rep f) -> copy_new hp (f_view f) uid = (hp', c, Ok tt) ->
+  sinv c /\
+  (forall s, containsSimplex c s = f_contains f s) /\
+  (forall s, f_contains f s = true ->
+     orderOf c s = Ok (length (faces (f_rep f) s) - 1) /\ forall t, In t (faces c s) <-> In t (faces (f_rep f) s)).
+Proof. exact snap_answers_as_filtration. Qed.
+Print Assumptions C14_snapshot_membership_and_faces.
+Theorem C14_snapshot_orders :
+  forall hp f uid hp' c, Closed.cinv (f_rep f) -> copy_new hp (f_view f) uid = (hp', c, Ok tt) ->
+  forall s, f_contains f s = true -> orderOf c s = orderOf (f_rep f) s.
+Proof. exact snap_orders_agree. Qed.
+Print Assumptions C14_snapshot_orders.
